@@ -346,6 +346,23 @@ fn scenarios_c11(tier: Tier) -> Vec<Scenario> {
             }
         }
     }
+    // repeated pause / resume with more chains than cores: every word of length 3 and 4 over
+    // {pause, resume} (a chain that has not been scheduled yet accumulates the commands)
+    for &(ch, co) in &[(2usize, 1usize), (3, 1)] {
+        for len in [3usize, 4] {
+            for sc in all_scripts(&[Op::Pause, Op::Resume], len).into_iter().filter(|s| s.len() == len) {
+                if tier == Tier::Thorough && len == 3 && ch == 2 {
+                    continue; // already part of the full alphabet above
+                }
+                for term in [Terminal::Abort, Terminal::WaitLong] {
+                    out.push(base(
+                        format!("DiagNuts/c{ch}k{co}/{}/{term:?}", script_name(&sc)),
+                        Preset::DiagNuts, ch, co, sc.clone(), term, 1,
+                    ));
+                }
+            }
+        }
+    }
     // commands after completion: sleep until everything is done, then issue commands
     for &(ch, co) in &[(1usize, 1usize), (2, 1)] {
         for cmd in [Op::Pause, Op::Resume, Op::Progress, Op::Flush, Op::Inspect] {
@@ -442,14 +459,23 @@ fn scenarios_c13(tier: Tier) -> Vec<Scenario> {
         for (pname, plan) in plans {
             let is_dens_sweep = pname.contains("-eval");
             for term in [Terminal::WaitLong, Terminal::Abort] {
-                let scripts: Vec<Vec<Op>> = if is_dens_sweep || pname.starts_with("all-inits-fail") {
+                let scripts: Vec<Vec<Op>> = if pname.starts_with("all-inits-fail") {
                     vec![vec![]]
+                } else if is_dens_sweep {
+                    // [Progress]: the user thread blocks in progress() while the chains advance, so
+                    // that one preemption lets abort()/wait overtake a chain whose faulty draw is
+                    // still in flight
+                    vec![vec![], vec![Op::Progress]]
                 } else {
                     vec![vec![], vec![Op::Pause, Op::Resume]]
                 };
                 for sc in scripts {
-                    // abort + density sweep only in thorough (abort ignores the results channel)
-                    if is_dens_sweep && term == Terminal::Abort && tier == Tier::Quick && !pname.ends_with("eval0") {
+                    // abort right after start stops the chains before most evaluations happen:
+                    // the plain script is kept to the first evaluation in quick
+                    if is_dens_sweep && sc.is_empty() && term == Terminal::Abort && tier == Tier::Quick && !pname.ends_with("eval0") {
+                        continue;
+                    }
+                    if is_dens_sweep && !sc.is_empty() && term == Terminal::WaitLong && tier == Tier::Quick {
                         continue;
                     }
                     let mut s = base(
